@@ -3,6 +3,8 @@ package rules
 import (
 	"fmt"
 	"go/ast"
+	"go/token"
+	"go/types"
 	"strings"
 
 	"dstverif/load"
@@ -222,38 +224,170 @@ func (e *Env) RApply() {
 	e.Run.Check("R-APPLY", "apply has an empty nil case", e.Prog.Pos(a.Switch.Pos()), a.NilCase != nil && len(a.NilCase.Body) == 0, "nil nodes are reported to pre/post but have no children")
 }
 
-// applyPackage: names collected from n.Files, sorted, then applied by name.
+// applyPackage: the files of a package are applied by name, in sorted name order: the loop that
+// calls a.apply(n, name, nil, n.Files[name]) ranges over a slice that holds the keys of n.Files and
+// was passed to sort.Strings — built inline or by a helper.
 func (e *Env) applyPackage(cs *schema.Case) {
 	c := e.Sib.Ctx[load.PkgDstutil]
+	pkg := e.Prog.Pkg(load.PkgDstutil)
+	info := pkg.TypesInfo
 	body := cs.Clause.Body
-	var text []string
+	var loop *ast.RangeStmt
 	for _, st := range body {
-		var sb strings.Builder
-		switch s := st.(type) {
-		case *ast.DeclStmt:
-			sb.WriteString("decl")
-		case *ast.RangeStmt:
-			sb.WriteString("range " + c.ExprStr(s.X) + " {")
-			for _, b := range s.Body.List {
-				switch b := b.(type) {
-				case *ast.AssignStmt:
-					sb.WriteString(c.ExprStr(b.Lhs[0]) + " = " + c.ExprStr(b.Rhs[0]) + ";")
-				case *ast.ExprStmt:
-					sb.WriteString(c.ExprStr(b.X) + ";")
-				default:
-					sb.WriteString("?;")
+		if rs, ok := st.(*ast.RangeStmt); ok {
+			has := false
+			ast.Inspect(rs.Body, func(n ast.Node) bool {
+				if call, ok := n.(*ast.CallExpr); ok && schema.IsMethod(c.Callee(call), load.PkgDstutil, "application", "apply") {
+					has = true
+				}
+				return true
+			})
+			if has {
+				loop = rs
+			}
+		}
+	}
+	key := "apply Package: files visited in sorted name order, by name"
+	if loop == nil {
+		e.Run.Violation("R-APPLY", key, e.casePos(cs), "no loop that applies the package's files")
+		return
+	}
+	// the apply call
+	okCall := false
+	var nameObj types.Object
+	if id, ok := loop.Value.(*ast.Ident); ok {
+		nameObj = info.Defs[id]
+	}
+	ast.Inspect(loop.Body, func(n ast.Node) bool {
+		call, ok := n.(*ast.CallExpr)
+		if !ok || !schema.IsMethod(c.Callee(call), load.PkgDstutil, "application", "apply") || len(call.Args) != 4 {
+			return true
+		}
+		a1, ok1 := call.Args[1].(*ast.Ident)
+		ix, ok3 := call.Args[3].(*ast.IndexExpr)
+		if ok1 && ok3 && info.Uses[a1] == nameObj && c.ExprStr(call.Args[2]) == "nil" {
+			if p, okp := c.Path(ix.X, cs.NObj); okp && p == "Files" {
+				if kid, ok := ix.Index.(*ast.Ident); ok && info.Uses[kid] == nameObj {
+					if p0, ok0 := c.Path(call.Args[0], cs.NObj); ok0 && p0 == "" {
+						okCall = true
+					}
 				}
 			}
-			sb.WriteString("}")
-		case *ast.ExprStmt:
-			sb.WriteString(c.ExprStr(s.X))
-		default:
-			sb.WriteString("?")
 		}
-		text = append(text, sb.String())
+		return true
+	})
+	// the slice ranged over: sorted keys of n.Files
+	sortedKeysIn := func(stmts []ast.Stmt, sliceObj types.Object, isMap func(ast.Expr) bool, before token.Pos) bool {
+		collected, sorted := token.NoPos, token.NoPos
+		for _, st := range stmts {
+			if before.IsValid() && st.Pos() >= before {
+				break
+			}
+			switch x := st.(type) {
+			case *ast.RangeStmt:
+				kid, ok := x.Key.(*ast.Ident)
+				if !ok || !isMap(x.X) || x.Value != nil || len(x.Body.List) != 1 {
+					continue
+				}
+				if as, ok := x.Body.List[0].(*ast.AssignStmt); ok && len(as.Lhs) == 1 && len(as.Rhs) == 1 {
+					lid, ok1 := as.Lhs[0].(*ast.Ident)
+					ap, ok2 := as.Rhs[0].(*ast.CallExpr)
+					if ok1 && ok2 && info.Uses[lid] == sliceObj && len(ap.Args) == 2 && c.ExprStr(ap.Fun) == "append" {
+						b, okb := ap.Args[0].(*ast.Ident)
+						k, okk := ap.Args[1].(*ast.Ident)
+						if okb && okk && info.Uses[b] == sliceObj && info.Uses[k] == info.Defs[kid] {
+							collected = x.Pos()
+						}
+					}
+				}
+			case *ast.ExprStmt:
+				if call, ok := x.X.(*ast.CallExpr); ok && funcKey(c.Callee(call)) == "sort.Strings" && len(call.Args) == 1 {
+					if id, ok := call.Args[0].(*ast.Ident); ok && info.Uses[id] == sliceObj && collected.IsValid() {
+						sorted = x.Pos()
+					}
+				}
+			}
+		}
+		return collected.IsValid() && sorted > collected
 	}
-	got := strings.Join(text, " | ")
-	want := "decl | range n.Files {names = append(names, name);} | sort.Strings(names) | range names {a.apply(n, name, nil, n.Files[name]);}"
-	e.Run.Check("R-APPLY", "apply Package: files visited in sorted name order, by name", e.casePos(cs), got == want,
-		"expected the upstream shape (collect names, sort.Strings, apply(n, name, nil, n.Files[name])); found: "+got)
+	okSorted := false
+	switch x := loop.X.(type) {
+	case *ast.Ident:
+		obj := info.Uses[x]
+		// inline: built and sorted in the case body before the loop
+		okSorted = sortedKeysIn(body, obj, func(m ast.Expr) bool { p, ok := c.Path(m, cs.NObj); return ok && p == "Files" }, loop.Pos())
+		if !okSorted {
+			// names := helper(n.Files)
+			if def := singleDefIn(info, body, obj); def != nil {
+				okSorted = e.sortedKeysHelper(c, def, cs, sortedKeysIn)
+			}
+		}
+	case *ast.CallExpr:
+		okSorted = e.sortedKeysHelper(c, x, cs, sortedKeysIn)
+	}
+	e.Run.Check("R-APPLY", key, e.casePos(cs), okCall && okSorted,
+		fmt.Sprintf("apply call has the form a.apply(n, name, nil, n.Files[name]): %v; the names come from the keys of n.Files and are passed to sort.Strings before the loop: %v — map order would make the callback sequence differ from run to run", okCall, okSorted))
+}
+
+// sortedKeysHelper: call is h(n.Files) with h a same-package function whose body collects the
+// keys of its map parameter into a slice, sorts it with sort.Strings and returns it.
+func (e *Env) sortedKeysHelper(c *schema.Ctx, x ast.Expr, cs *schema.Case, sortedKeysIn func([]ast.Stmt, types.Object, func(ast.Expr) bool, token.Pos) bool) bool {
+	call, ok := x.(*ast.CallExpr)
+	if !ok || len(call.Args) != 1 {
+		return false
+	}
+	if p, okp := c.Path(call.Args[0], cs.NObj); !okp || p != "Files" {
+		return false
+	}
+	fn := c.Callee(call)
+	if fn == nil || fn.Pkg() != c.Pkg.Types {
+		return false
+	}
+	for _, h := range load.AllFuncDecls(c.Pkg) {
+		if c.Info.Defs[h.Name] != types.Object(fn) || h.Body == nil || len(h.Body.List) == 0 {
+			continue
+		}
+		var param types.Object
+		for _, p := range h.Type.Params.List {
+			for _, nm := range p.Names {
+				param = c.Info.Defs[nm]
+			}
+		}
+		ret, ok := h.Body.List[len(h.Body.List)-1].(*ast.ReturnStmt)
+		if !ok || len(ret.Results) != 1 {
+			return false
+		}
+		rid, ok := ret.Results[0].(*ast.Ident)
+		if !ok {
+			return false
+		}
+		return sortedKeysIn(h.Body.List, c.Info.Uses[rid], func(m ast.Expr) bool { id, ok := m.(*ast.Ident); return ok && c.Info.Uses[id] == param }, token.NoPos)
+	}
+	return false
+}
+
+func singleDefIn(info *types.Info, stmts []ast.Stmt, obj types.Object) ast.Expr {
+	var def ast.Expr
+	n := 0
+	for _, st := range stmts {
+		ast.Inspect(st, func(nd ast.Node) bool {
+			as, ok := nd.(*ast.AssignStmt)
+			if !ok {
+				return true
+			}
+			for i, l := range as.Lhs {
+				if lid, ok := l.(*ast.Ident); ok && (info.Defs[lid] == obj || (as.Tok != token.DEFINE && info.Uses[lid] == obj)) {
+					n++
+					if len(as.Lhs) == len(as.Rhs) {
+						def = as.Rhs[i]
+					}
+				}
+			}
+			return true
+		})
+	}
+	if n == 1 {
+		return def
+	}
+	return nil
 }
